@@ -36,12 +36,12 @@
 (*                                                                         *)
 (* The switch node's entry `pslot` in its graph's schedule table is ONE    *)
 (* cell (schedule_node_impl: overwritten when stale or when the new time   *)
-(* is earlier).  A notification (key tick, held input tick reaching the    *)
-(* started branch) overwrites a later pending wake-up of the branch; only  *)
-(* the pull after the branch's evaluation restores it.  A wake-up the      *)
-(* retired branch had pending therefore simply evaporates: the key tick    *)
-(* that retires the branch overwrote the cell and only the new branch's    *)
-(* cached next time is pulled.                                             *)
+(* is earlier).  A notification (key tick, held input tick) overwrites a   *)
+(* later pending wake-up of the branch; only the pull after the branch's   *)
+(* evaluation restores it.  A wake-up the retired branch had pending       *)
+(* therefore simply evaporates: the key tick that retires the branch       *)
+(* overwrote the cell and only the new branch's cached next time is pulled *)
+(* (confirmed on the real code: no cycle happens at that time).            *)
 (*                                                                         *)
 (* A branch is a small machine with private state, so that "fresh",        *)
 (* "resumed", "still evaluated" and "lost wake-up" are all observable:     *)
@@ -66,6 +66,14 @@
 (*                 the wanted definition instead of being rebuilt          *)
 (*   evalslots     every constructed slot is evaluated, not the active one *)
 (*   ignoreunmatched  `if (spec == nullptr) return true;`                  *)
+(*                                                                         *)
+(* Not modelled: the forwarding-output variant (output bound before the    *)
+(* old branch stops, no output reset), the REF-shaped output, pause /      *)
+(* resume of the active child, exceptions thrown by a branch, what happens *)
+(* after the unmatched-key error (the run ends: `failed` is terminal).     *)
+(* NewBranchStartsFresh includes "in storage of its own": a branch larger  *)
+(* than the slot (nodefaultslot) overruns into the neighbouring slot or    *)
+(* the node's own header - undefined behaviour, recorded as `overrun`.     *)
 (***************************************************************************)
 EXTENDS Integers, Sequences, FiniteSets, TLC
 
@@ -146,8 +154,10 @@ Cycle(T, kt, it) ==
         inp1  == IF it # 0 THEN it ELSE inp
         kmod  == kt # 0
         imod  == it # 0
-        \* notifications reach the node (key) or a node of a started branch (held input; pushed to the parent) before its turn
-        ps0   == IF kmod \/ (imod /\ \E s \in Slots : graphs[s].started) THEN T ELSE pslot
+        \* notifications schedule the node for T before its turn: the node's own inputs (the key and the held inputs are
+        \* all active on the outer node - it has a turn on a held tick even before any branch exists) and, pushed up by
+        \* nested_schedule_node_impl, the inputs of the started branch
+        ps0   == IF kmod \/ imod THEN T ELSE pslot
         turn  == ps0 = T
         \* ---- decide
         consider == turn /\ key1 # 0 /\ (kmod \/ active = NoSlot)
